@@ -169,6 +169,39 @@ func VxRootRotationFault() {
 	vxAssert("after restart the earlier record is readable", vxReadable(r, val))
 }
 
+// (c'') Rotate hit by ONE storage failure at ANY of its calls, node keeps running and the rotation is retried (drawing
+// fresh key material): what is written afterwards is readable by the running barrier AND after a restart, i.e. it was
+// encrypted under a key that is in the persisted keyring - an abandoned candidate key is never used.
+func VxRotateFaultThenRetry() {
+	ctx := context.Background()
+	phys, root, val := vxInitStore(false)
+	b := vxNewBarrier(phys)
+	vxAssert("unseal ok", b.Unseal(ctx, root) == nil)
+	fail := vxChoose("failing call (6 = none)", 7)
+	if fail < 6 {
+		phys.failAt = phys.calls + fail
+	}
+	_, err := b.Rotate(ctx)
+	phys.failAt = -1
+	if err != nil {
+		vxReach("rotate: failed, retried")
+		vxAssert("after a failed rotation the barrier still serves earlier data", vxReadable(b, val))
+		_, err = b.Rotate(ctx)
+	}
+	vxAssert("the (re)tried rotation succeeds", err == nil)
+	nv := vxByte("value written after the rotation")
+	vxAssert("write after rotation ok", b.Put(ctx, &logical.StorageEntry{Key: "secret/new", Value: []byte{nv}}) == nil)
+	e, gerr := b.Get(ctx, "secret/new")
+	vxAssert("the running barrier reads back what it wrote", gerr == nil && e != nil && len(e.Value) == 1 && e.Value[0] == nv)
+	vxAssert("and still serves earlier data", vxReadable(b, val))
+	r := vxNewBarrier(phys) // restart (or a standby reloading the keyring)
+	vxAssert("after restart the root key unseals", r.Unseal(ctx, root) == nil)
+	vxAssert("after restart the earlier record is readable", vxReadable(r, val))
+	e, gerr = r.Get(ctx, "secret/new")
+	vxAssert("after restart the record written after the retried rotation is readable (it was encrypted under a persisted key)", gerr == nil && e != nil && len(e.Value) == 1 && e.Value[0] == nv)
+	vxReach("rotate fault: restarted")
+}
+
 // RotateRootKey with a crash after any prefix of its writes
 func VxRootRotationCrash() {
 	ctx := context.Background()
